@@ -419,6 +419,19 @@ func (x *FnExec) applyContractSig(in ssa.Instruction, con *Contract, calleeName 
 	na := x.ctx.Fresh("alloc_c", SInt)
 	x.ctx.Assert(Ge(na, pre.alloc))
 	st.alloc = na
+	// whatever address a callee returns refers to memory that exists when it returns: below the
+	// allocation frontier after the call (so it cannot coincide with anything allocated later)
+	for i, t := range resultTypes(sig) {
+		flat := rs[i].Flatten()
+		for j, l := range x.mem.Leaves(t) {
+			if l.IsPtr && j < len(flat) && !flat[j].B {
+				x.ctx.Assert(Lt(flat[j].T, na))
+			}
+		}
+		for _, c := range x.existsBelow(rs[i], t, na) {
+			x.ctx.Assert(c)
+		}
+	}
 	// 4. postconditions
 	envPost := mkEnv(rs, st.heaps, pre.heaps, pre.alloc)
 	var posts []Term
